@@ -411,3 +411,26 @@ is_square = Contract(
 
 # ---------------------------------------------------------------- jacobi: raises exactly for y <= 0 or even y (value: bounded)
 CONTRACTS += [gcdext] + ratrec_contracts + [next_prime, prev_prime, is_square]
+
+
+# ---- the primality test is randomised (Miller-Rabin with random bases): a wrong answer depends on the bases drawn.  Inside a check run every
+#      input is evaluated once; a REPLAY (eval1 called directly by the replay file) evaluates the same input up to 50 times and reports the first failure.
+class _RepeatOnReplay(Native):
+    _running = False
+
+    def run(self, tier, prop_key=None, limit_s=None):
+        self._running = True
+        try:
+            return super().run(tier, prop_key, limit_s)
+        finally:
+            self._running = False
+
+    def eval1(self, args):
+        for _ in range(1 if self._running else 50):
+            msg = super().eval1(args)
+            if msg: return msg
+        return None
+
+
+for _nm in ('is_prime', 'next_prime', 'prev_prime'):
+    NATIVE[_nm].__class__ = _RepeatOnReplay
